@@ -438,6 +438,14 @@ fn run_prog(prog: &str, regs: &mut HashMap<String, Element>) -> String {
                         _ => fail!("unsupported"),
                     }
                 }
+                // whole batches through the batch helpers: `R=nbat.<i>:A,B,C` is entry i of normalize_batch([A,B,C]),
+                // `R=bconv.<i>:…` the same through batch_convert_to_mul_base
+                ("nbat", regs_) | ("bconv", regs_) if !regs_.is_empty() => {
+                    let mut v = Vec::new();
+                    for r_ in regs_.iter() { v.push(reg!(*r_)); }
+                    let i: usize = match form.parse() { Ok(i) if i < v.len() => i, _ => fail!("bad-op") };
+                    if base == "nbat" { Element::normalize_batch(&v)[i].into() } else { Element::batch_convert_to_mul_base(&v)[i].into() }
+                }
                 ("mul", [a, k]) => match scalar_of(k) {
                     Some(k) => match mul(form, reg!(*a), k) { Some(e) => e, None => fail!("unsupported") },
                     None => fail!("bad-op"),
